@@ -21,3 +21,14 @@ package loglist3
 //@ loop 2 step-assert [every-log-whose-window-contains-notafter-is-kept] l.TemporalInterval != nil && instant(l.TemporalInterval.StartInclusive) <= instant(cert.NotAfter) && instant(cert.NotAfter) < instant(l.TemporalInterval.EndExclusive) ==> keepInWindow.called
 //@ loop 2 step-assert [unsharded-logs-kept] l.TemporalInterval == nil ==> keepUnsharded.called
 //@ ensures [nil-certificate-matches-nothing] cert == nil ==> len(result.Operators) == 0
+
+//@ func NewFromSignedJSON
+//@ props C05
+//@ site tls.VerifySignature#1 as v
+//@ site NewFromJSON#1 as nj
+//@ requires validKey(pubKey)
+//@ ensures [only-rsa-and-ecdsa-keys] typeof(pubKey) != *rsa.PublicKey && typeof(pubKey) != *ecdsa.PublicKey ==> result0 == nil && result1 != nil && !v.called && !nj.called
+//@ ensures [nothing-is-parsed-unless-the-signature-verifies] v.called && v.res != nil ==> result0 == nil && result1 != nil && !nj.called
+//@ ensures [a-verified-list-is-the-parse-of-exactly-the-signed-bytes] v.called && v.res == nil ==> nj.called && result0 == nj.res0 && result1 == nj.res1
+//@ at v assert [sha256-with-the-key-type-algorithm-over-the-list-bytes] v.pubKey == pubKey && v.data == llData && v.sig.Signature == rawSig && v.sig.Algorithm.Hash == tls.SHA256 && v.sig.Algorithm.Signature == (typeof(pubKey) == *rsa.PublicKey ? tls.RSA : tls.ECDSA)
+//@ at nj assert [parses-the-verified-bytes] nj.llData == llData
